@@ -170,6 +170,10 @@ func (c *C06) Ops(s *HState) []engine.Op {
 		ops = append(ops, engine.OpN("Dep", ch), engine.OpN("DepSplit", ch))
 	}
 	ops = append(ops, engine.OpN("Bond", 3), engine.OpN("FirstVote", 3), engine.OpN("SetPower", 0, 30))
+	if c.Alpha == "hub" {
+		// governance changes the token list (commission of hub@ethereum 1% <-> 5%): later transfers depend on it
+		ops = append(ops, engine.OpN("Commission"))
+	}
 	return ops
 }
 
@@ -202,6 +206,18 @@ func (c *C06) apply(in *hub.Instance, g *c06Ghost, op engine.Op) (pruned bool) {
 			ev := &mhubtypes.SendToHubEvent{EventNonce: g.Ev[ch], ExternalCoinId: tok, Amount: sdk.NewInt(amt), Sender: hub.HexAddr("s"), CosmosReceiver: c.User.String(), ExternalHeight: 100 + g.Ev[ch], TxHash: fmt.Sprintf("0x%s%d", ch, g.Ev[ch])}
 			in.DeliverMsg(hub.EventMsg(v.Orch, ch, ev))
 		}
+	case "Commission":
+		ti := in.Hub.GetTokenInfos(in.Ctx())
+		for _, t := range ti.TokenInfos {
+			if t.ChainId == "ethereum" && t.Denom == "hub" {
+				if t.Commission.Equal(sdk.NewDec(1).QuoInt64(100)) {
+					t.Commission = sdk.NewDec(5).QuoInt64(100)
+				} else {
+					t.Commission = sdk.NewDec(1).QuoInt64(100)
+				}
+			}
+		}
+		_ = in.Proposal(&mhubtypes.TokenInfosChangeProposal{NewInfos: ti})
 	case "Bond":
 		in.Staking.Vals[op.I[0]].Bonded = true
 	case "SetPower":
@@ -297,6 +313,82 @@ func (c *C06) Do(in *hub.Instance, gg Ghost, op engine.Op, st *engine.Step) {
 			}
 		}
 	}
+	// read-only queries (every gRPC query of both modules, on the committed and on the working state) served before the
+	// operation and, inside a block transition, between EndBlock and Commit, change nothing
+	if len(st.Violations) == 0 {
+		qa := hub.QueryArgs{Chains: []string{"ethereum", "minter"}, Validator: c.Vals[0].Oper.String(), Account: c.User.String(), External: c.Vals[0].Eth.Hex(), Denom: "hub", ExternalID: EthHub, TxHash: "0xethereum1"}
+		in.Restore(pre)
+		in.Events = nil
+		served := in.SweepBoth(qa)
+		in.BeforeCommit = func() { served += in.SweepBoth(qa) }
+		g2 := g.Clone().(*c06Ghost)
+		p := c.apply(in, g2, op)
+		in.BeforeCommit = nil
+		st.Count("queries_served", served)
+		if d := c06Digest(in); p || d != d0 {
+			st.Violate("C06", "result_depends_on_queries_served", op.Kind, "op %s: digest %s without queries, %s when the gRPC queries are served before it (and between EndBlock and Commit)", op, d0, d)
+		}
+	}
+	// a process that has never seen any other state (fresh keepers, codec, stores) computes the same result from the same
+	// state as one that has: the long-lived instance of this worker (whatever the search made it execute before) and an
+	// instance that has just executed a history through other states - every sibling operation, one after the other - (reproducible from the path alone)
+	if len(st.Violations) == 0 {
+		runOn := func(x *hub.Instance) (string, bool) {
+			x.Restore(pre)
+			x.Events = nil
+			g2 := g.Clone().(*c06Ghost)
+			p := c.apply(x, g2, op)
+			return c06Digest(x), p
+		}
+		mkFresh := func() *hub.Instance {
+			f := hub.New()
+			f.AnteSeq, f.GenesisClosed = in.AnteSeq, in.GenesisClosed
+			return f
+		}
+		dF, pF := runOn(mkFresh())
+		st.Count("fresh_instance_runs", 1)
+		if pF || dF != d0 {
+			// the long-lived instance disagrees with a fresh one: confirm that fresh instances agree with each other and
+			// that the sibling-polluted instance reproduces the disagreement before reporting it
+			st.Count("instance_disagreements", 1)
+		}
+		if c.Alpha == "hub" || pF || dF != d0 {
+			sibs := c.Ops(&HState{G: g})
+			polluted := func(reverse bool) (string, bool) {
+				// the sibling operations are executed one after the other (a history through OTHER states), then the
+				// instance is put back on this state
+				x := mkFresh()
+				x.Restore(pre)
+				gx := g.Clone().(*c06Ghost)
+				for i := range sibs {
+					sib := sibs[i]
+					if reverse {
+						sib = sibs[len(sibs)-1-i]
+					}
+					if c.apply(x, gx, sib) {
+						x.Restore(pre) // a failed block: start over from this state
+					}
+				}
+				st.Count("sibling_polluted_runs", 1)
+				return runOn(x)
+			}
+			dX, pX := polluted(true)
+			if pX == pF && dX == dF && (pF || dF != d0) {
+				dX, pX = polluted(false)
+			}
+			if pX != pF || dX != dF {
+				st.Violate("C06", "result_depends_on_process_instance", op.Kind, "op %s: digest %s on a fresh instance, %s on an instance that executed all sibling operations one after the other before being put on the same state (long-lived instance: %s)", op, dF, dX, d0)
+			} else if pF || dF != d0 {
+				// only the search's own long-lived instance disagrees: not reproducible from the path alone, so it is confirmed
+				// here (a second fresh instance agrees with the first, the long-lived one repeats its own answer)
+				dF2, _ := runOn(mkFresh())
+				d0b, _ := runOn(in)
+				if dF2 == dF && d0b == d0 {
+					st.Violate("C06", "nondeterministic_result_depends_on_process_history", op.Kind, "op %s: digest %s (twice) on fresh instances, %s (twice) on the instance that has executed other histories before", op, dF, d0)
+				}
+			}
+		}
+	}
 	// leave the instance in the canonical post-state
 	in.Restore(pre)
 	in.Events = nil
@@ -320,6 +412,7 @@ func init() {
 				"built with the overlay generated by tools/maprw from the CURRENT tree: every range-over-map site of x/mhub2 and x/oracle is a choice point (sites listed in the evidence)",
 				"alphabets put >=2 entries into every iterated map: two token ids per chain in the pool at batching time, two event nonces / two conflicting claims in one tally, first vote of a new validator, power change (PowerDiff), two price sets, two holder lists, several validators",
 				"maps of <=4 keys: all n! orders; larger: reverse, rotations, adjacent swaps; deviation bound 1 (quick) / 2 (thorough) per transition",
+				"every transition is additionally executed (a) after serving every gRPC query of both modules on the committed and the working state (also between EndBlock and Commit) and (b) on a fresh instance (new keepers, codecs, stores) restored from the same state; both must reproduce the digest of state and events: process-local state outside the store would show",
 				"SDK-internal maps are not instrumented (cachekv sorts before writing); fresh-instance determinism is covered by the straight-line replays from genesis, which must reproduce the explored state digests",
 			}
 	}))
